@@ -336,6 +336,31 @@ func init() {
 	opTable["ptnatf"] = func(s *Session, a []string) string {
 		return posResult(decPTN(a[3:]).PositionAtMove(atoi(a[0]), colorOf(a[1])))
 	}
+	// ptnreuse <mode> <n> <colour> <tps answer of B> <file A> || <file B>: ONE PTN value is queried as file A (InitialPosition,
+	// an iterator run, PositionAtMove), then given file B's tags and moves (mode 0: in place; 1: on a struct copy), and
+	// queried again: the answers are those of file B - a PTN value has no memory of what it used to say
+	opTable["ptnreuse"] = func(s *Session, a []string) string {
+		cut := -1
+		for i, t := range a {
+			if t == "||" {
+				cut = i
+			}
+		}
+		A, B := decPTN(a[4:cut]), decPTN(a[cut+1:])
+		func() {
+			defer func() { recover() }()
+			A.InitialPosition()
+			traceOf(A)
+			A.PositionAtMove(atoi(a[1]), colorOf(a[2]))
+		}()
+		p := A
+		if a[0] == "1" {
+			q := *A
+			p = &q
+		}
+		p.Tags, p.Ops = B.Tags, B.Ops
+		return posResult(p.PositionAtMove(atoi(a[1]), colorOf(a[2]))) + " / " + posResult(p.InitialPosition())
+	}
 	opTable["ptniterf"] = func(s *Session, a []string) string {
 		return traceOf(decPTN(a[1:]))
 	}
